@@ -1,7 +1,7 @@
 (* C06 — Grapheme, word and line boundaries follow UAX #29 / UAX #14 for every string.
    Property theorems only.  Model: Model/Segmenter.v (tied to segmenter/*.go by the correspondence check);
    specifications: Spec/UAX29.v, Spec/UAX14.v. *)
-From TV Require Import Model.Segmenter Spec.UAX29 Spec.UAX14 Proofs.SegCommon Proofs.SegG Proofs.SegL Proofs.SegW Proofs.SegIter.
+From TV Require Import Model.Segmenter Spec.UAX29 Spec.UAX14 Proofs.SegCommon Proofs.SegG Proofs.SegL Proofs.SegW Proofs.SegWords Proofs.SegIter.
 (* table theorems (second half of this file): the observation of a rune computed from the regenerated tables *)
 From TV Require Import Model.ObsOfRune Spec.Unicode Proofs.ObsTables.
 Open Scope Z_scope.
@@ -50,6 +50,13 @@ Theorem iterators_partition : forall s0 text s f,
   seg_init s0 text = Ok s -> chain f s 0 (segments f s (S (length (sg_text s))) 0).
 Proof. exact iterators_lemma. Qed.
 Print Assumptions iterators_partition.
+
+(* the WordIterator yields exactly the UAX #29 word segments whose first rune is in the library's Word table
+   (the repaired iterator: adjacent words are all reported) *)
+Theorem word_iterator_eq_spec : forall s0 text s,
+  forallb obs_wf_w text = true -> seg_init s0 text = Ok s -> word_segments s = uax29_words text.
+Proof. exact word_iterator_lemma. Qed.
+Print Assumptions word_iterator_eq_spec.
 
 (* non-vacuity: a pictographic ZWJ sequence with a regional-indicator pair meets the hypotheses *)
 Example wf_example :
